@@ -14,11 +14,16 @@ F_CX = 'atsim/potentials/config/_cexprtk_potential_function.py'
 F_REG = 'atsim/potentials/config/_potential_form_registry.py'
 import contracts.routes as RT
 # Engine A: the arity rule and the binding order of the access routes (the source-shape obligations on the same functions stay as tripwires)
-FUNCTIONS = [(RT.F_UTIL, '_rpartial.__call__'), (RT.F_PF, '_Check_Call.required_arg_len'), (RT.F_PF, '_Check_Call.args_valid')]
+FUNCTIONS = [(RT.F_UTIL, '_rpartial.__call__'), (RT.F_PF, '_Check_Call.required_arg_len'), (RT.F_PF, '_Check_Call.args_valid'), (RT.F_PF, '_Check_Call.__call__'),
+             (RT.F_PY, '_Python_Potential_Function.__call__'), (RT.F_FORMS, '_FunctionFactory.__call__')]
 MUTANTS = [
     (RT.F_UTIL, '_rpartial.__call__', "args + self.args", "self.args + args", 'post'),
     (RT.F_PF, '_Check_Call.required_arg_len', "argl = argl - 1", "argl = argl - 0", 'post'),
     (RT.F_PF, '_Check_Call.args_valid', "len(args) == self.required_arg_len()", "len(args) >= self.required_arg_len()", 'post'),
+    (RT.F_PF, '_Check_Call.__call__', "if not self.args_valid(*args):", "if self.args_valid(*args):", 'post'),
+    (RT.F_PY, '_Python_Potential_Function.__call__', "self._pyfunc(*args)", "self._pyfunc(*args[1:])", 'post'),
+    (RT.F_FORMS, '_FunctionFactory.__call__', "_rpartial(self._func.deriv, *args)", "_rpartial(self._func.deriv2, *args)", 'post'),
+    (RT.F_FORMS, '_FunctionFactory.__call__', "wrapper = _rpartial(self._func, *args)", "wrapper = _rpartial(self._func, *args[1:])", 'post'),
 ]
 r = B.R
 
